@@ -378,7 +378,10 @@ def varint_writer(ctx: Ctx, vfn: Func) -> None:
     from .c01 import varint_writer_consts
 
     k = varint_writer_consts(ctx)
-    ctx.require({"mask", "shift", "cont"} <= set(k), f"varint writer constants not identified: {k}")
+    recognised = {"mask", "shift", "cont"} <= set(k)
+    ctx.ob("C02.R2", vfn, "varint writer is one of the group-by-group loop forms the checker can decide", recognised, f"constants found {k}: an encoder computed some other way (bit_length arithmetic, a comprehension over shifts) is not decided - minimality and the continuation bits at the group boundaries (127/128, 16383/16384, ...) cannot be read off it, so it is rejected")
+    if not recognised:
+        return
     ctx.ob("C02.R2", vfn, "varint writer: 7-bit groups, mask = 2^7-1, continuation = 2^7", (k["shift"], k["mask"], k["cont"]) == (7, 0x7F, 0x80), f"{k}")
     if "fast" in k:
         fast_ret = [n for n in own_nodes(vfn.node) if isinstance(n, ast.If) and isinstance(n.test, ast.Compare) and norm(n.test.left) == p and n.body and isinstance(n.body[0], ast.Return)]
